@@ -112,4 +112,35 @@ theorem C09_parameter_order (ta tb : Py.Str) (a b : Rat) (ha : TokOK ta a) (hb :
 example : TokOK "1.5e3".toList 1500 ∧ TokOK "20.50".toList (41 / 2) := by
   refine ⟨⟨?_, ?_, ?_, ?_, ?_⟩, ⟨?_, ?_, ?_, ?_, ?_⟩⟩ <;> decide +kernel
 
+/-- `int` of a whole number is that number -/
+theorem truncRat_nat (n : Nat) : truncRat (n : Rat) = n := by
+  unfold truncRat
+  have h : (n : Rat) ≥ 0 := by exact_mod_cast Nat.zero_le n
+  simp only [h, if_true]
+  have : ((n : Rat)).floor = (n : Int) := by
+    simp [Rat.floor]
+  rw [this]; simp
+
+/-- **C09 (parameter order, unconditional for whole-number parameters)**: for ALL natural numbers `m`, `n` written in decimal digits — no
+side condition left — the six forms are read as the documented family with `m` the first and `n` the second parameter. -/
+theorem C09_parameter_order_nat (m n : Nat) :
+    parseDist (distTextOf "gauss".toList (Nat.toDigits 10 m) (Nat.toDigits 10 n)) = .ok { fam := .gauss, params := [(m : Rat), (n : Rat)] } ∧
+    parseDist (distTextOf "uniform".toList (Nat.toDigits 10 m) (Nat.toDigits 10 n)) = .ok { fam := .uniform, params := [(m : Rat), (n : Rat)] } ∧
+    (m ≠ n → parseDist (distTextOf "schulz_zimm".toList (Nat.toDigits 10 m) (Nat.toDigits 10 n)) = .ok { fam := .schulzZimm, params := [(m : Rat), (n : Rat)] }) ∧
+    parseDist (distTextOf "log_normal".toList (Nat.toDigits 10 m) (Nat.toDigits 10 n)) = .ok { fam := .logNormal, params := [(m : Rat), (n : Rat)] } ∧
+    parseDist (distText1Of "poisson".toList (Nat.toDigits 10 m)) = .ok { fam := .poisson, params := [(m : Rat)] } ∧
+    parseDist (distText1Of "flory_schulz".toList (Nat.toDigits 10 m)) = .ok { fam := .florySchulz, params := [(m : Rat)] } := by
+  have hm := TokOK_nat m
+  have hn := TokOK_nat n
+  obtain ⟨h1, h2, h3, h4, h5, h6⟩ := C09_parameter_order _ _ _ _ hm hn
+  refine ⟨h1, ?_, ?_, h4, ?_, h6⟩
+  · rw [h2, truncRat_nat, truncRat_nat]
+  · intro hne; exact h3 (by exact_mod_cast hne)
+  · apply h5
+    have hne : Nat.toDigits 10 m ≠ [] := Nat.toDigits_ne_nil
+    obtain ⟨c, cs, hcs⟩ := List.exists_cons_of_ne_nil hne
+    have hd : ∀ x ∈ c :: cs, x.isDigit = true := by
+      rw [← hcs]; exact fun x hx => Nat.isDigit_of_mem_toDigits (by omega) (by omega) hx
+    rw [hcs, parseFloat_digits c cs hd, ← hcs, Nat.ofDigitChars_ten_toDigits]
+
 end GBS.P
